@@ -71,3 +71,123 @@ for _sp in SPECS:
           assumes=["callee frames listed in vt/contracts/frames_c17.py (which calls modify / restore / snapshot a tracked location); calls not listed modify nothing tracked",
                    "re-installing a previously held value (restore call / assignment) does not raise",
                    "attribute reads, subscripts and arithmetic do not raise (only calls, `raise` and `yield` are exception points)"])(_mk(_sp))
+
+
+# ---- ownership condition behind every `old = self.chains_idx ... set_used_chains(old)` frame above ---------------------------
+# The helpers snapshot the selection BY ALIAS.  That is a snapshot by value only if (1) set_used_chains installs a list object
+# nobody else holds on EVERY path (no path keeps the old object, none stores the caller's object), and (2) the only in-place
+# mutation of the selection (add_used_chains: append) is applied to such a list.  (1) is decided here on the AST; (2) follows
+# from (1) because every assignment to `chains_idx` in DecayGroup goes through set_used_chains / __init__ (also checked).
+import ast as _ast
+
+
+def _fresh(node):
+    """expression that evaluates to a newly allocated list"""
+    if isinstance(node, (_ast.List, _ast.ListComp)):
+        return True
+    if isinstance(node, _ast.Call):
+        f = node.func
+        if isinstance(f, _ast.Name) and f.id in ("list", "sorted"):
+            return True
+        if isinstance(f, _ast.Attribute) and f.attr in ("copy", "deepcopy", "tolist"):
+            return True
+    if isinstance(node, _ast.Subscript) and isinstance(node.slice, _ast.Slice) and node.slice.lower is None and node.slice.upper is None and node.slice.step is None:
+        return True
+    if isinstance(node, _ast.BinOp) and isinstance(node.op, _ast.Add):
+        return _fresh(node.left) or _fresh(node.right)
+    return False
+
+
+def _installs_fresh(stmts, fresh_names):
+    """every path through stmts that reaches its end or returns has executed `self.chains_idx = <fresh>`:
+    returns (all paths falling off the end have installed, no path returned before installing)"""
+    installed = False
+    for st in stmts:
+        if isinstance(st, _ast.Assign) and len(st.targets) == 1:
+            t = st.targets[0]
+            if isinstance(t, _ast.Name) and (_fresh(st.value)):
+                fresh_names.add(t.id)
+            elif isinstance(t, _ast.Name):
+                fresh_names.discard(t.id)
+            if isinstance(t, _ast.Attribute) and t.attr == "chains_idx" and isinstance(t.value, _ast.Name) and t.value.id == "self":
+                installed = _fresh(st.value) or (isinstance(st.value, _ast.Name) and st.value.id in fresh_names)
+                if not installed:
+                    return False, False
+                continue
+        if isinstance(st, _ast.Return):
+            return installed, installed
+        if isinstance(st, _ast.If):
+            a_end, a_ok = _installs_fresh(st.body, set(fresh_names)) if not installed else (True, True)
+            b_end, b_ok = _installs_fresh(st.orelse, set(fresh_names)) if not installed else (True, True)
+            if not installed:
+                if not (a_ok and b_ok) and (_has_return(st.body) or _has_return(st.orelse)):
+                    return False, False
+                installed = a_end and b_end and bool(st.orelse)
+            continue
+        if not installed and _has_return(st):
+            return False, False
+    return installed, True
+
+
+def _has_return(node):
+    nodes = node if isinstance(node, list) else [node]
+    return any(isinstance(x, _ast.Return) for n_ in nodes for x in _ast.walk(n_))
+
+
+def _ownership(ctx):
+    import os
+
+    path = os.path.join(loader.repo(), "tf_pwa", "amp", "core.py")
+    tree = _ast.parse(open(path).read())
+    cls = [n_ for n_ in tree.body if isinstance(n_, _ast.ClassDef) and n_.name == "DecayGroup"][0]
+    fn = {n_.name: n_ for n_ in cls.body if isinstance(n_, _ast.FunctionDef)}
+    ctx.count(key="set_used_chains")
+    end, ok = _installs_fresh(fn["set_used_chains"].body, set())
+    ctx.check("set_used_chains/installs_fresh_list_on_every_path", bool(end and ok),
+              clause="DecayGroup.set_used_chains: on every path (fall-through or return) `self.chains_idx` has been assigned a newly allocated list - never the caller's object, "
+                     "never left as the old object (the helpers' snapshots `old = self.chains_idx` are aliases of the old object)",
+              detail="" if end and ok else "a path through set_used_chains ends without `self.chains_idx = <new list>`:\n" + _ast.unparse(fn["set_used_chains"]),
+              witness={"function": "amp.core:DecayGroup.set_used_chains", "source": _ast.unparse(fn["set_used_chains"])}, backend="frame-analysis")
+    # writers of chains_idx in the class: assignment only in __init__ / set_used_chains; in-place mutation only in add_used_chains (append)
+    writers, mutators = set(), set()
+    for name, f in fn.items():
+        for x in _ast.walk(f):
+            if isinstance(x, (_ast.Assign, _ast.AugAssign)):
+                for t in (x.targets if isinstance(x, _ast.Assign) else [x.target]):
+                    for y in _ast.walk(t):
+                        if isinstance(y, _ast.Attribute) and y.attr == "chains_idx":
+                            writers.add(name)
+            if isinstance(x, _ast.Call) and isinstance(x.func, _ast.Attribute) and x.func.attr in ("append", "extend", "remove", "pop", "insert", "clear", "sort", "reverse"):
+                v = x.func.value
+                if isinstance(v, _ast.Attribute) and v.attr == "chains_idx":
+                    mutators.add(name + "." + x.func.attr)
+            if isinstance(x, _ast.Delete):
+                for t in x.targets:
+                    for y in _ast.walk(t):
+                        if isinstance(y, _ast.Attribute) and y.attr == "chains_idx":
+                            mutators.add(name + ".del")
+    ctx.count(key="writers")
+    ctx.check("chains_idx/writers", writers <= {"__init__", "set_used_chains"} and mutators <= {"add_used_chains.append"},
+              clause="within DecayGroup `chains_idx` is assigned only by __init__ and set_used_chains and mutated in place only by add_used_chains (append)",
+              detail="assigned in %s; mutated in place by %s" % (sorted(writers), sorted(mutators)),
+              witness={"assigned_in": sorted(writers), "mutated_by": sorted(mutators)}, backend="frame-analysis")
+    # add_used_chains is reached from set_used_res only after set_used_chains (fresh list) in the same call
+    src = fn["set_used_res"]
+    order = [x.func.attr for x in _ast.walk(src) if isinstance(x, _ast.Call) and isinstance(x.func, _ast.Attribute) and x.func.attr in ("set_used_chains", "add_used_chains")]
+    calls_lin = []
+    for st in src.body:
+        for x in _ast.walk(st):
+            if isinstance(x, _ast.Call) and isinstance(x.func, _ast.Attribute) and x.func.attr in ("set_used_chains", "add_used_chains"):
+                calls_lin.append((st.lineno, x.func.attr))
+    calls_lin.sort()
+    first = [c for _, c in calls_lin]
+    ctx.count(key="set_used_res")
+    ctx.check("set_used_res/append_after_fresh_install", bool(first) and first[0] == "set_used_chains" and "add_used_chains" not in first[:1] and bool(order),
+              clause="DecayGroup.set_used_res calls set_used_chains (fresh list) before any add_used_chains (in-place append)",
+              detail="call order: %s" % first, witness={"order": first}, backend="frame-analysis")
+
+
+group(["C17"], "frame/DecayGroup.chains_idx_ownership", ["amp.core:DecayGroup.set_used_chains", "amp.core:DecayGroup.add_used_chains", "amp.core:DecayGroup.set_used_res"],
+      env="shim", kind="P", plain=True,
+      assumes=["fresh-list expressions recognised syntactically: list(..), sorted(..), [..], comprehension, x.copy(), x[:], concatenation with one of these; "
+               "code outside DecayGroup writes chains_idx only through set_used_chains (frames above list every call site)"])(_ownership)
